@@ -132,7 +132,7 @@ class EvaluateImpl(GraphKernel):
     fn_name = "evaluate_impl"
     filter = "evaluate_impl"
     sig = "bool (const void *, const hgraph::GraphView &, hgraph::DateTime)"
-    property_ids = ("C01", "C02", "C14", "C15", "C16")
+    property_ids = ("C01", "C02", "C09", "C14", "C15", "C16")
     title = "evaluate_impl: one engine cycle over the node array"
     max_paths = 20000
 
